@@ -15,6 +15,7 @@ PROPERTY = 'C06'
 LEVEL = 'fault_enumeration'
 MODULE = 'vmc.charness'
 MENU = ['deadline-before', 'deadline-after', 'kill']
+# 'kill-other': at any RPC boundary any other live worker may die
 
 
 def configs(tier):
@@ -45,6 +46,14 @@ def sharded_configs(tier):
   out.append(('sharded', dict(W=2, S=2, total=5, batch=2, menu=MENU, retry=1)))
   out.append(('sharded', dict(W=2, S=2, total=4, batch=2, fuse=False, menu=MENU)))
   out.append(('sharded', dict(W=2, S=2, total=5, batch=2, menu=MENU, push=False)))
+  # a worker may die at any RPC boundary (not only when it is called), and the
+  # consumer of the output may be slow, so that workers finish their shards and
+  # die while the caller still holds a batch
+  anywhere = MENU + ['kill-other']
+  for W, S, total in ((2, 2, 5), (2, 3, 6), (2, 1, 3)):
+    for slow in (0, 400):
+      out.append(('sharded', dict(W=W, S=S, total=total, batch=2, menu=anywhere,
+                                  slow=slow)))
   return out
 
 
